@@ -19,14 +19,24 @@
  *        and closes.
  *        dsh() runs in a forked child (it is a once-per-process function); the child's main-like
  *        wrapper does `return dsh (&opt)`, i.e. the exit status is the low 8 bits, as in main.c.
+ *   dshk S K FANOUT CMDTMO SCRIPT[;SCRIPT...]
+ *        the same run, with the transport's event log: the answer of `dsh` followed by " ev=<events>" where events is
+ *        the comma separated sequence (in the order they happened) of C<i> (rcmd_connect called for target i),
+ *        G<i> (rcmd_signal: the target was sent a signal by _fwd_signal / the time-out), D<i> (rcmd_destroy called),
+ *        "-" = none; a run that does not end within 15 s is killed: "hung ev=...".
+ *        t3 = after d<ms> milliseconds the bytes e<hex> arrive on stdout, which stays open until rcmd_signal (a command
+ *        that fails in mid-run, e.g. the marker line of a killed command, while the stream is still open).
+ *        t4 = the same, and the stream is closed d<ms> milliseconds after the bytes were written.
  *   xd e<code> | xd s<sig> | xd null -> "<ret>"      (exec_destroy of execcmd.c on a real child; exit_exec.c)
- *   cmd S K HEX                      -> "<hex of the command string dsh() hands to rcmd_connect for its one target>"
+ *   cmd S K HEX [DEFAULT-RCMD]       -> "<hex of the command string dsh() hands to rcmd_connect for its one target>"
  *        (what the transport is asked to run when the user's command is HEX: with -S / -k the request for the
  *        status marker must have been appended, otherwise an in-band transport can never report a failure)
  */
 #include "src/pdsh/dsh.c"
 
 #include <sys/wait.h>
+#include <poll.h>
+#include <signal.h>
 #include <ctype.h>
 
 #include "src/common/hostlist.h"
@@ -83,6 +93,23 @@ static void *_closer(void *arg)
     return NULL;
 }
 
+static void *_big_writer(void *arg)
+{
+    struct script *s = arg;
+    struct timespec ts = { s->delay_ms / 1000, (s->delay_ms % 1000) * 1000000L };
+    int off = 0;
+    while (off < s->outlen) {
+        int n = (int) write(s->wfd, s->out + off, (size_t) (s->outlen - off));
+        if (n <= 0)
+            break;                  /* the reader has gone away */
+        off += n;
+    }
+    nanosleep(&ts, NULL);
+    close(s->wfd);
+    s->wfd = -1;
+    return NULL;
+}
+
 static void *_chatter(void *arg)
 {
     struct script *s = arg;
@@ -113,6 +140,35 @@ static void start_thread(void *(*fn)(void *), struct script *s)
 }
 
 static int cmd_report_fd = -1;      /* op `cmd`: where rcmd_connect reports the command it was given */
+static char *cmd_default_rcmd;     /* op `cmd`: opt->rcmd_name */
+static int event_fd = -1;           /* op `dshk`: the transport's event log */
+
+static void log_event(char what, int idx)
+{
+    char b[16];
+    int n;
+    if (event_fd < 0)
+        return;
+    n = snprintf(b, sizeof b, "%c%d,", what, idx);
+    if (write(event_fd, b, (size_t) n) < 0) { }
+}
+
+static void *_late_writer(void *arg)
+{
+    struct script *s = arg;
+    struct timespec ts = { s->delay_ms / 1000, (s->delay_ms % 1000) * 1000000L };
+    nanosleep(&ts, NULL);
+    if (!s->signalled && s->wfd >= 0 && s->epilen > 0 && write(s->wfd, s->epilogue, s->epilen) != s->epilen)
+        ;
+    if (s->hang == 4) {             /* ... and is closed after the same time again */
+        nanosleep(&ts, NULL);
+        if (!s->signalled && s->wfd >= 0) {
+            close(s->wfd);
+            s->wfd = -1;
+        }
+    }
+    return NULL;                    /* t3: the stream stays open until rcmd_signal */
+}
 
 int rcmd_connect(struct rcmd_info *rcmd, char *host, char *addr, char *locuser, char *remuser, char *cmd,
                  int nodeid, bool error_fd)
@@ -120,6 +176,7 @@ int rcmd_connect(struct rcmd_info *rcmd, char *host, char *addr, char *locuser, 
     struct script *s = &scripts[nodeid];
     int pfd[2];
     (void) host; (void) addr; (void) locuser; (void) remuser; (void) error_fd;
+    log_event('C', nodeid);
     if (cmd_report_fd >= 0 && cmd) {
         if (write(cmd_report_fd, cmd, strlen(cmd)) < 0)
             abort();
@@ -128,16 +185,28 @@ int rcmd_connect(struct rcmd_info *rcmd, char *host, char *addr, char *locuser, 
     }
     rcmd->arg = s;
     if (!s->connect_ok) {
+        if (s->delay_ms > 0) {      /* a host that refuses only after a while */
+            struct timespec ts = { s->delay_ms / 1000, (s->delay_ms % 1000) * 1000000L };
+            nanosleep(&ts, NULL);
+        }
         rcmd->fd = -1;
         return -1;
     }
     if (pipe(pfd) < 0)
         abort();
+    s->wfd = pfd[1];
+    if (s->outlen > 60000 && !s->hang) {
+        /* more than a pipe holds: written by a thread of its own (then the delay, then the close) */
+        start_thread(_big_writer, s);
+        rcmd->fd = pfd[0];
+        return pfd[0];
+    }
     if (s->outlen > 0 && write(pfd[1], s->out, s->outlen) != s->outlen)
         abort();
-    s->wfd = pfd[1];
     if (s->hang == 2) {
         start_thread(_chatter, s);
+    } else if (s->hang == 3 || s->hang == 4) {
+        start_thread(_late_writer, s);
     } else if (s->hang) {
         /* stays open until rcmd_signal */
     } else if (s->delay_ms > 0) {
@@ -154,7 +223,15 @@ int rcmd_signal(struct rcmd_info *rcmd, int signum)
 {
     struct script *s = rcmd->arg;
     (void) signum;
-    if (s && s->hang == 2)
+    if (s)
+        log_event('G', (int) (s - scripts));
+    if (s && (s->hang == 3 || s->hang == 4)) {
+        s->signalled = 1;
+        if (s->wfd >= 0) {
+            close(s->wfd);
+            s->wfd = -1;
+        }
+    } else if (s && s->hang == 2)
         s->signalled = 1;           /* the chatter thread writes its epilogue and closes */
     else if (s && s->hang && s->wfd >= 0) {
         close(s->wfd);
@@ -171,6 +248,8 @@ int rcmd_destroy(struct rcmd_info *rcmd)
         return 0;
     s = rcmd->arg;
     rv = s ? s->rv : 0;
+    if (s)
+        log_event('D', (int) (s - scripts));
     free(rcmd);
     return rv;
 }
@@ -255,17 +334,17 @@ static int parse_scripts(char *spec)
     return nscripts;
 }
 
-static void op_dsh(char *line)
+static void op_dsh(char *line, int with_events)
 {
     int S, K, fanout, cmdtmo, consumed = 0;
     pid_t pid;
-    int rp[2], status;
+    int rp[2], ep[2] = { -1, -1 }, status;
     if (sscanf(line, "%d %d %d %d %n", &S, &K, &fanout, &cmdtmo, &consumed) < 4 || parse_scripts(line + consumed) <= 0) {
         printf("bad-op\n");
         return;
     }
     fflush(stdout);
-    if (pipe(rp) < 0)
+    if (pipe(rp) < 0 || (with_events && pipe(ep) < 0))
         abort();
     pid = fork();
     if (pid == 0) {
@@ -273,6 +352,10 @@ static void op_dsh(char *line)
         char hosts[64];
         int ret, devnull;
         close(rp[0]);
+        if (with_events) {
+            close(ep[0]);
+            event_fd = ep[1];
+        }
         /* fd 0 must not stay shared with the parent: exit() in the child would lseek a seekable
          * stdin back to the unread position and the parent would read its input again */
         devnull = open("/dev/null", O_RDWR);
@@ -302,19 +385,50 @@ static void op_dsh(char *line)
     }
     close(rp[1]);
     {
-        int ret = 0;
-        int got = (int) read(rp[0], &ret, sizeof(ret));
+        int ret = 0, got, hung = 0, elen = 0;
+        static char ev[65536];
+        if (with_events) {
+            /* the log ends (EOF) when the child and all its threads are gone; a child that does not end is killed */
+            struct pollfd pf = { ep[0], POLLIN, 0 };
+            int waited = 0;
+            close(ep[1]);
+            for (;;) {
+                int r = poll(&pf, 1, 500);
+                if (r > 0) {
+                    int n = (int) read(ep[0], ev + elen, sizeof(ev) - 1 - elen);
+                    if (n <= 0)
+                        break;
+                    elen += n;
+                } else if (r == 0 && (waited += 500) >= 15000) {
+                    hung = 1;
+                    kill(pid, SIGKILL);
+                    break;
+                }
+            }
+            close(ep[0]);
+            ev[elen] = '\0';
+            if (elen > 0 && ev[elen - 1] == ',')
+                ev[elen - 1] = '\0';
+        }
+        got = hung ? 0 : (int) read(rp[0], &ret, sizeof(ret));
         close(rp[0]);
         while (waitpid(pid, &status, 0) < 0 && errno == EINTR)
             ;
-        if (got == (int) sizeof(ret))
-            printf("ret %d ", ret);
-        else
-            printf("noret ");
-        if (WIFEXITED(status))
-            printf("exit %d\n", WEXITSTATUS(status));
-        else
-            printf("sig %d\n", WTERMSIG(status));
+        if (hung)
+            printf("hung");
+        else {
+            if (got == (int) sizeof(ret))
+                printf("ret %d ", ret);
+            else
+                printf("noret ");
+            if (WIFEXITED(status))
+                printf("exit %d", WEXITSTATUS(status));
+            else
+                printf("sig %d", WTERMSIG(status));
+        }
+        if (with_events)
+            printf(" ev=%s", elen > 0 && ev[0] ? ev : "-");
+        printf("\n");
     }
 }
 
@@ -333,6 +447,11 @@ static void op_cmd(char *line)
     ucmd = malloc(n + 1);
     memcpy(ucmd, raw, n);
     ucmd[n] = '\0';
+    {   /* optional: the name of the DEFAULT transport (opt->rcmd_name); the target itself is served by the scripted
+         * in-band transport whatever that name says, as a `-w other:host` target is */
+        char *sp = strchr(line + consumed, ' ');
+        cmd_default_rcmd = (sp && sp[1]) ? sp + 1 : NULL;
+    }
     memset(&scripts[0], 0, sizeof(scripts[0]));
     scripts[0].wfd = -1;
     scripts[0].connect_ok = 1;
@@ -361,6 +480,7 @@ static void op_cmd(char *line)
         opt.cmd = Strdup(ucmd);
         opt.ret_remote_rc = S;
         opt.kill_on_fail = K;
+        opt.rcmd_name = cmd_default_rcmd ? Strdup(cmd_default_rcmd) : NULL;
         opt.wcoll = hostlist_create("h0");
         exit(dsh(&opt) & 0xff);
     }
@@ -395,7 +515,9 @@ int main(int argc, char **argv)
         if (strncmp(line, "xrc ", 4) == 0)
             op_xrc(line + 4);
         else if (strncmp(line, "dsh ", 4) == 0)
-            op_dsh(line + 4);
+            op_dsh(line + 4, 0);
+        else if (strncmp(line, "dshk ", 5) == 0)
+            op_dsh(line + 5, 1);
         else if (strncmp(line, "xd ", 3) == 0)
             printf("%d\n", harness_exec_destroy(line + 3));
         else if (strncmp(line, "cmd ", 4) == 0)
